@@ -384,7 +384,8 @@ def R5_collect_protocol_fees(run):
     # ... and only a collection may zero them: the stores of 0 to protocol_fee_owed_a / _b are those of reset_protocol_fees_owed, and that is
     # called from the two collection handlers only (a reset anywhere else erases a claim that was never paid)
     allowed = {"instructions::collect_protocol_fees::handler", "instructions::v2::collect_protocol_fees::handler"}
-    bad = sorted({f.path for f, _ in facts.callers().get(W + "::reset_protocol_fees_owed", []) if f.path not in allowed and "::tests::" not in f.path and "_tests::" not in f.path})
+    bad = sorted({f.path for f, _ in facts.callers().get(W + "::reset_protocol_fees_owed", []) if f.path not in allowed and "::tests::" not in f.path and "_tests::" not in f.path
+                  and not f.path.endswith("Whirlpool::initialize")})
     for w in writes.field_stores(facts):
         if w["field"] in ("protocol_fee_owed_a", "protocol_fee_owed_b") and w["fn"] is not fn and w["fn"].path not in allowed and "test" not in w["fn"].path \
                 and not w["fn"].path.endswith("Whirlpool::initialize"):   # a new pool starts with nothing owed
